@@ -32,6 +32,7 @@ from vlib import core
 HERE = os.path.dirname(os.path.abspath(__file__))
 if HERE not in sys.path:
     sys.path.insert(0, HERE)
+import desc_stage  # noqa: E402  (props/C14/desc_stage.py: io/file.c descriptor vs coq/C14/FileLenModel.v)
 import fine_stage  # noqa: E402  (props/C14/fine_stage.py: system-call level trace, refinement check, harness tie)
 LEVEL = "proof"
 
@@ -51,6 +52,13 @@ def build_all():
                              extra=["-shared", "-fPIC"], link_lib=False, libs=["-ldl", "-lpthread"])
     drv = core.build_model_driver("C14", "ExtractC14.v", os.path.join(HERE, "driver.ml"))
     return info, h, shim, drv
+
+
+def build_desc(info):
+    try:
+        return B.compile_harness(info, [os.path.join(HERE, "h_file.c")], "h_file_c14"), None
+    except Exception as e:  # noqa: BLE001
+        return None, str(e)
 
 
 def build_fine(info):
@@ -515,6 +523,38 @@ def make_inputs(ctx, base):
     mem = [dict(name="e", type="dir"), dict(name="e/blk", data=blob(r4, 4096, "mixed")),
            dict(name="e/tail", data=blob(r4, 300, "text"), uid=7), dict(name="e/sl", type="sym", target="blk")]
     inputs.append(tar_input(r4, base, "tar-export-gzip-4k", 4096, "gzip", mem, extra_args=["-e"]))
+    # P-T: every way the block writer ROLLS BACK with truncate (deduplicate_blocks: a file whose blocks all exist already is
+    # written, found equal and cut off again).  What is cut off must be MORE than everything written afterwards (incompressible
+    # multi-block duplicates, little or nothing behind them), otherwise a shrink the descriptor only notes but does not perform
+    # (seeded/C14-8) is papered over by the later writes: roll-back of the LAST file, of a MIDDLE file, SEVERAL roll-backs
+    # (incl. a one-block duplicate and a duplicate of a duplicate), with a fragment behind it, and the same through tar2sqfs.
+    r5 = random.Random(ctx.seed * 7789 + 5)
+    nb = r5.choice([2, 3, 4])
+    big5 = blob(r5, 4096 * nb, "rand")
+    one5 = blob(r5, 4096, "rand")
+    inputs.append(pack_input(r5, base, "gen-rollback-last-gzip-4k", 4096, "gzip", [("r/a", big5), ("r/b", big5)], []))
+    inputs.append(pack_input(r5, base, "gen-rollback-middle-lz4-4k", 4096, "lz4",
+                             [("r/a", big5), ("r/b", big5), ("r/c", blob(r5, 4096, "text")), ("r/d", blob(r5, 200, "text"))], special[:1]))
+    inputs.append(pack_input(r5, base, "gen-rollback-several-zstd-4k", 4096, "zstd",
+                             [("r/a", big5), ("r/b", one5), ("r/c", big5), ("r/d", one5), ("r/e", blob(r5, 4096, "zero")),
+                              ("r/f", big5 + one5), ("r/g", big5 + one5)], [], extra_args=["-T"]))
+    mem = [dict(name="r", type="dir"), dict(name="r/a", data=big5 + one5), dict(name="r/t", data=blob(r5, 90, "text")),
+           dict(name="r/b", data=big5 + one5, uid=3), dict(name="r/c", data=one5), dict(name="r/d", data=one5)]
+    inputs.append(tar_input(r5, base, "tar-rollback-gzip-4k", 4096, "gzip", mem))
+    if ctx.tier == "thorough":
+        for c in range(12):
+            r6 = random.Random(ctx.seed * 4241 + c)
+            bs6 = r6.choice([4096, 8192, 32768])
+            comp = COMPRESSORS[c % 5]
+            pool = [blob(r6, bs6 * r6.randint(1, 4) + r6.choice([0, 0, r6.randint(1, bs6 - 1)]), "rand") for _ in range(3)]
+            seq = [r6.choice(pool) for _ in range(r6.randint(2, 7))]
+            if c % 2 == 0:
+                inputs.append(pack_input(r6, base, "gen-rollback-r%02d-%s" % (c, comp), bs6, comp,
+                                         [("r/f%02d" % j, d) for j, d in enumerate(seq)], special[:r6.randint(0, 3)],
+                                         extra_args=r6.choice([[], ["-T"], ["-e"]])))
+            else:
+                inputs.append(tar_input(r6, base, "tar-rollback-r%02d-%s" % (c, comp), bs6, comp,
+                                        [dict(name="f%02d" % j, data=d) for j, d in enumerate(seq)], jobs=r6.choice([1, 3])))
     if ctx.tier == "thorough":
         # all 16 combinations of the optional sections, gensquashfs, rotating compressors
         for c in range(16):
@@ -553,11 +593,13 @@ def make_inputs(ctx, base):
 # running packers and readers
 # ----------------------------------------------------------------------------------------------
 
-def run_packer(info, shim, inp, out, log=None, kill=None, timeout=120):
+def run_packer(info, shim, inp, out, log=None, kill=None, timeout=120, sizes=None):
     env = dict(os.environ, LD_PRELOAD=shim, C14_OUT=out)
     env.pop("SOURCE_DATE_EPOCH", None)
     if log:
         env["C14_LOG"] = log
+    if sizes:
+        env["C14_SIZES"] = sizes
     if kill is not None:
         env["C14_KILL"] = str(kill)
     try:
@@ -621,6 +663,68 @@ class Full:
     pass
 
 
+def whole_file_relation(left, final):
+    """How the WHOLE file left behind (length included) relates to the file of the uninterrupted run.  The complete image
+    is the whole output file; the only thing that may still be missing from an accepted left-over is (part of) the zero
+    padding behind bytes_used (written after the commit, no reader looks at it).  So an accepted left-over must be a prefix
+    of the final file that contains all of [0, bytes_used) - a LONGER file, or bytes behind bytes_used that are not the
+    final file's, is not the complete image.  Returns None if so, else a description."""
+    if left is None:
+        return "no file"
+    if len(final) < 96:
+        return None
+    used = int.from_bytes(final[40:48], "little")
+    if len(left) > len(final):
+        n = len(final)
+        tail = left[n:]
+        return ("the file is %d bytes long, the complete image %d: %d bytes follow the end of the image (%s)"
+                % (len(left), n, len(tail), "all zero" if not any(tail) else "%d of them non-zero: stale data" % sum(1 for x in tail if x)))
+    if left != final[:len(left)]:
+        i = next(j for j in range(len(left)) if left[j] != final[j])
+        return "byte %d of the file (length %d; bytes_used %d, complete file %d bytes) differs from the complete image" % (i, len(left), used, len(final))
+    if len(left) < used:
+        return "the file is %d bytes long, shorter than bytes_used = %d" % (len(left), used)
+    return None
+
+
+def desc_length_tie(f):
+    """io/file.c's descriptor (coq/C14/FileLenModel.v, theorem truncate_is_physical): the cached logical size IS the
+    physical length after every call.  Observed on the uninterrupted run: (1) the physical length the shim fstat()s after
+    call k equals the model's length of apply (firstn (k+1) trace) (extracted apply, K lines of the driver); (2) every
+    writer of the library writes at get_size() (the logical size), so - if logical = physical - every write except the
+    two super block writes at offset 0 starts exactly at the physical end of file (appendsb): a write that starts inside
+    the file means the logical size had fallen behind... or ahead of the physical one.  Returns a list of problems."""
+    probs = []
+    m = f.model
+    if m is None or not f.phys:
+        return ["no size log"] if f.rc == 0 else []
+    if len(f.phys) != m["n"]:
+        probs.append("size log has %d entries for %d calls" % (len(f.phys), m["n"]))
+        return probs
+    calls = []
+    try:
+        for ln in open(f.log):
+            p = ln.split(" ")
+            if p[0] == "W":
+                calls.append(("W", int(p[1]), int(p[2])))
+            elif p[0] == "T":
+                calls.append(("T", int(p[1]), 0))
+            else:
+                calls.append(("X", 0, 0))
+    except (OSError, ValueError, IndexError):
+        return ["unreadable call log"]
+    for k, phys in enumerate(f.phys):
+        mk = m["ks"].get(k + 1)
+        if mk is not None and mk["size"] != phys and len(probs) < 3:
+            probs.append("after call %d the file is %d bytes long (fstat), the model's file %d" % (k, phys, mk["size"]))
+        if k < len(calls) and calls[k][0] == "W" and calls[k][1] != 0 and calls[k][2] > 0:
+            before = f.phys[k - 1] if k > 0 else 0
+            if calls[k][1] != before and len(probs) < 3:
+                probs.append("call %d writes %d bytes at offset %d = get_size() while the file is physically %d bytes long: "
+                             "logical and physical length differ" % (k, calls[k][2], calls[k][1], before))
+    return probs
+
+
 def full_run(ctx, info, shim, drv, inp, base, fdrv=None):
     """uninterrupted run under the logging shim + model evaluation of the trace"""
     d = os.path.join(base, inp.name)
@@ -639,12 +743,15 @@ def full_run(ctx, info, shim, drv, inp, base, fdrv=None):
         f.old = old
     f.img = os.path.join(d, "full.sqfs")
     f.log = os.path.join(d, "full.log")
-    for p in (f.img, f.log):
+    f.sizelog = os.path.join(d, "full.sizes")
+    for p in (f.img, f.log, f.sizelog):
         if os.path.exists(p):
             os.remove(p)
     if f.old:
         shutil.copy(f.old, f.img)
-    f.rc, f.err = run_packer(info, shim, inp, f.img, log=f.log)
+    f.rc, f.err = run_packer(info, shim, inp, f.img, log=f.log, sizes=f.sizelog)
+    f.final_bytes = b""
+    f.phys = []
     f.refs = {}
     f.n = 0
     f.model = None
@@ -670,6 +777,12 @@ def full_run(ctx, info, shim, drv, inp, base, fdrv=None):
     f.n = f.model["n"]
     f.final_md5, f.final_size = md5_file(f.img)
     f.final_super, f.final_body = image_identity(f.img)
+    try:
+        f.final_bytes = open(f.img, "rb").read()
+        f.phys = [int(x) for x in open(f.sizelog).read().split()]
+    except (OSError, ValueError):
+        pass
+    f.desc = desc_length_tie(f)
     # the logged calls as a refinement of the section-level trace recomputed from the image (coq/C14/SectionModel.v)
     f.fine = fine_stage.real_check(fdrv, f.log, f.img, preexec=big_stack) if fdrv else None
     return f
@@ -685,6 +798,10 @@ def kill_point(info, shim, f, k):
     rc, err = run_packer(info, shim, f.inp, out, kill=(k if k < f.n else None))
     md5, size = md5_file(out)
     res = dict(k=k, rc=rc, md5=md5, size=size, readers={})
+    try:
+        res["whole"] = whole_file_relation(open(out, "rb").read() if md5 is not None else None, f.final_bytes)
+    except OSError:
+        res["whole"] = "no file"
     res["super"], res["body"] = image_identity(out)
     for w in READERS:
         res["readers"][w] = run_reader(info, w, out) if md5 is not None else (1, "nofile", 0)
@@ -749,7 +866,7 @@ def run(ctx):
         cases = []
     else:
         cases = gen_component_cases(ctx)
-    if replay and replay.get("kind") == "fine-harness":
+    if replay and replay.get("kind") in ("fine-harness", "desc-harness"):
         cases = []
     comp_bad, comp_stats = [], {}
     if cases:
@@ -759,10 +876,23 @@ def run(ctx):
                          for i in (0, len(cases) // 2)])
     ctx.log("component tie: %d cases, %d disagreements, %s" % (len(cases), len(comp_bad), comp_stats))
 
+    # ---- descriptor leg: io/file.c write_at / truncate / get_size / drop vs FileLenModel (logical = physical length) ----
+    hd, desc_err = build_desc(info)
+    if replay and replay.get("kind") == "desc-harness":
+        desc_cases = list(replay.get("lines", []))
+    elif replay:
+        desc_cases = []
+    else:
+        desc_cases = desc_stage.gen_cases(ctx.seed, ctx.tier)
+    desc_hbad, desc_hstat = [], {}
+    if hd and desc_cases:
+        desc_hbad, desc_hstat = desc_stage.run(hd, os.path.join(ctx.scratch, "h_file.tmp"), desc_cases)
+    ctx.log("descriptor harness: %s, %d disagreements" % (desc_hstat, len(desc_hbad)))
+
     # ---- tie (b) + search ----
     base = os.path.join(ctx.scratch, "sweep")
     os.makedirs(base, exist_ok=True)
-    if replay and replay.get("kind") in ("component", "fine-harness"):
+    if replay and replay.get("kind") in ("component", "fine-harness", "desc-harness"):
         inputs = []
     else:
         inputs = make_inputs(ctx, base)
@@ -829,6 +959,25 @@ def run(ctx):
             ref = f.refs[w]
             if rc == 0 and ref[0] == 0 and sha == ref[1]:
                 all_rej = False
+                if same_image and res.get("whole") and not res.get("is_old"):
+                    # same super block and same bytes [0, bytes_used) - but the FILE is not the complete image (length
+                    # included): bytes behind bytes_used that the complete image does not have (seeded/C14-8: a shrink
+                    # that is only applied when the file is closed leaves cut-off data blocks behind the image)
+                    violating = True
+                    concrete += 1
+                    stat["accepted_different_file"] = stat.get("accepted_different_file", 0) + 1
+                    sig = "crash-window:%s:accepted-different-file" % f.inp.tool
+                    if sig not in reported:
+                        reported.add(sig)
+                        ctx.violation(sig, "%s killed right before output call %d of %d (commit is call %d) on input %s: %s accepts the "
+                                      "file left behind and prints what it prints for the complete image, super block and bytes "
+                                      "[0, bytes_used) are the complete image's, but the file is not the complete image: %s" % (
+                                          f.inp.tool, k, f.n, m["commit"], f.inp.name,
+                                          {"rd-l": "rdsquashfs -l /", "rd-d": "rdsquashfs -d", "s2t": "sqfs2tar"}[w], res["whole"]),
+                                      dict(kind="kill", input=f.inp.name, k=k, reader=w, recipe=f.inp.recipe, tool=f.inp.tool,
+                                           args=f.inp.args, reader_rc=rc, leftover_size=res["size"], complete_size=f.final_size,
+                                           bytes_used=decode_super(f.final_super)["bytes_used"] if f.final_super else None,
+                                           whole_file=res["whole"], model_accepts=(mk or {}).get("accepts")))
                 if not same_image and not res.get("is_old"):
                     violating = True
                     concrete += 1
@@ -899,6 +1048,37 @@ def run(ctx):
                       dict(kind="kill", input=f.inp.name, recipe=f.inp.recipe, args=f.inp.args,
                            correspondence="extracted trace_okb on the logged trace (hypothesis of crash_prefix_rejected / after_commit_complete)",
                            trace_head=open(f.log).read()[:3000] if os.path.exists(f.log) else ""), no_input=True)
+    # ---- io/file.c descriptor: logical length = physical length after every call (truncate_is_physical) ----
+    if desc_err:
+        ctx.violation("desc-harness:build", "props/C14/h_file.c no longer builds against the current tree: %s" % desc_err[-500:],
+                      dict(kind="desc-harness", detail=desc_err[-3000:]), no_input=True)
+    seen_dh = set()
+    for kind, why, line in desc_hbad:
+        if kind in seen_dh:
+            continue
+        seen_dh.add(kind)
+        ctx.violation("desc-harness:" + kind,
+                      "the output descriptor of lib/sqfs/src/io/file.c does not behave like coq/C14/FileLenModel.v (fd_write / fd_trunc "
+                      "Physical; theorem truncate_is_physical: after every call the file a kill leaves behind is as long as get_size() "
+                      "says): %s; calls: %s; kill sweep found %d concrete failures" % (why, line[:300], concrete),
+                      dict(kind="desc-harness", lines=[l for k2, _, l in desc_hbad if k2 == kind][:5], detail=why,
+                           correspondence="props/C14/h_file.c (sqfs_file_open, write_at, truncate, get_size, stat after every call, "
+                                          "sqfs_drop) vs FileLenModel"), no_input=True)
+    desc_bad = [f for f in fulls if f.rc == 0 and getattr(f, "desc", None)]
+    stat["desc_length_runs_ok"] = sum(1 for f in fulls if f.rc == 0 and getattr(f, "desc", None) == [])
+    stat["desc_length_calls"] = sum(len(f.phys) for f in fulls if f.rc == 0)
+    seen_desc = set()
+    for f in desc_bad:
+        if f.inp.tool in seen_desc:
+            continue
+        seen_desc.add(f.inp.tool)
+        ctx.violation("desc-length:%s" % f.inp.tool,
+                      "the output descriptor of a real %s run (input %s, %d calls) does not behave like the model of io/file.c "
+                      "(FileLenModel: logical size = physical length after every call, truncate_is_physical): %s; kill sweep found "
+                      "%d concrete failures" % (f.inp.tool, f.inp.name, f.n, "; ".join(f.desc[:3]), concrete),
+                      dict(kind="kill", input=f.inp.name, recipe=f.inp.recipe, args=f.inp.args, problems=f.desc[:3],
+                           correspondence="fstat length after every call = length of extracted apply (firstn (k+1) trace); "
+                                          "every write_at(get_size()) starts at the physical end of file"), no_input=True)
     # ---- system-call level: refinement of the section trace (real runs) and exact call sequence (harness) ----
     fine_stat = dict(real_runs=0, real_refine_ok=0, sections_exact=0, sections_predicted=0, data_calls=0, truncations=0,
                      harness_cases=0, harness_exact=0, harness_calls=0, harness_truncations=0, harness_refused=0)
@@ -1043,7 +1223,9 @@ def run(ctx):
         "(toy compressors x block sizes x export / xattr / options, duplicates -> truncations, multi-block inode / directory / "
         "xattr tables, empty tree) compare the library's call sequence with the model's fine trace exactly"
         % (ctx.seed, len(fulls), fine_stat["harness_cases"]))
-    ctx.coverage["distribution"] = dict(component=comp_stats, sweep=stat, inputs=per_input, fine=fine_stat)
+    ctx.coverage["distribution"] = dict(component=comp_stats, sweep=stat, inputs=per_input, fine=fine_stat, descriptor=desc_hstat)
+    ctx.coverage["evaluations"] += desc_hstat.get("cases", 0)
+    ctx.coverage["distinct_nontrivial"] += desc_hstat.get("cases", 0) - len(desc_hbad)
     ctx.coverage["evaluations"] += fine_stat["real_runs"] + fine_stat["harness_cases"]
     ctx.coverage["distinct_nontrivial"] += fine_stat["real_refine_ok"] + fine_stat["harness_exact"]
     ctx.notes.append("readers and a missing pad: at %d of %d kill points between the commit and the end of the padding write "
@@ -1059,3 +1241,4 @@ def run(ctx):
 def setup():
     info = build_all()[0]
     build_fine(info)
+    build_desc(info)
